@@ -140,6 +140,22 @@ func checkC02(c *Ctx, r *Report) {
 	// the recognisers the client constructors actually install (CRC-aware ones may also answer
 	// nil on a CRC mismatch)
 	installedRecognisers(c, r, "R2.3", crc, map[string]bool{c.fnMust("packet", "AsTCPErrorPacket").String() + "/false": true, c.fnMust("packet", "AsRTUErrorPacket").String() + "/true": true})
+	// R2.7: a reply is reported either as a response or as an error, never as neither: every
+	// return of the reply dispatchers pairs a nil response with a non-nil error (C10 R10.3)
+	{
+		tmp := newReport(r.Prop, r.Tier)
+		runC10On(c, tmp, "packet", nil, false)
+		n := 0
+		for _, it := range tmp.items {
+			if it.Rule == "R10.3" && strings.Contains(it.Construct, "Response") && !strings.Contains(it.Construct, "Request") && strings.Contains(it.Construct, "packet.Parse") && (strings.HasSuffix(it.Construct, "TCPResponse") || strings.HasSuffix(it.Construct, "RTUResponse") || strings.HasSuffix(it.Construct, "ResponseWithCRC")) {
+				it.Rule = "R2.7"
+				r.add(it)
+				n++
+			}
+		}
+		r.instance("R2.7", n)
+		r.floor("R2.7", 6)
+	}
 	for _, name := range []string{"ParseTCPResponse", "ParseRTUResponse"} {
 		c02Dispatcher(c, r, c.fnMust("packet", name), name == "ParseTCPResponse", false)
 	}
